@@ -1503,6 +1503,51 @@ func c10R4(c *Check, sr *storeRoles) {
 			}
 		}
 	}
+	// … and nowhere else: a store's timeouts are what its constructor was given (a later "tightening" with min(), where 0
+	// means `no limit`, switches a limit off for every session of a shared store)
+	nTW := 0
+	for _, fn := range P.Funcs {
+		if !isOwnPath(pkgPathOf(fn)) || fn == sr.NewMem || fn == sr.NewRed {
+			continue
+		}
+		for _, b := range fn.Blocks {
+			for _, ins := range b.Instrs {
+				st, ok := ins.(*ssa.Store)
+				if !ok {
+					continue
+				}
+				fa, isF := st.Addr.(*ssa.FieldAddr)
+				if !isF {
+					continue
+				}
+				f := fieldOf(fa.X.Type(), fa.Field)
+				if f == nil || roleOfParam(f.Name()) == "" || typeID(f.Type()) != "time.Duration" {
+					continue
+				}
+				if n, isN := derefType(fa.X.Type()).(*types.Named); !isN || (n != sr.Mem && n != sr.Redis) {
+					// a small struct that bundles the two timeouts and is built where it is used
+					if al, isA := resolveCell(fa.X).(*ssa.Alloc); isA && al.Parent() == fn {
+						continue
+					}
+					if !strings.HasPrefix(typeID(derefType(fa.X.Type())), pkgOIDC+".") {
+						continue
+					}
+				}
+				if al, isA := resolveCell(fa.X).(*ssa.Alloc); isA && al.Parent() == fn && (fn.Name() == "NewMemoryStore" || fn.Name() == "NewRedisStore") {
+					continue
+				}
+				nTW++
+				c.Fail("C10.R4", "timeout-written-outside-constructor/"+fnKey(fn)+"/"+f.Name(), P.Pos(st.Pos()), "the store timeout "+f.Name()+" is assigned in "+fnKey(fn)+", outside the store constructors: the limit a filter configured is replaced after the store was built")
+			}
+		}
+	}
+	if nTW == 0 {
+		c.Pass("C10.R4", "timeout-written-outside-constructor", "-", "the store timeouts are assigned by the constructors only")
+	}
+	factoryGetIsALookup(c, "C10.R4")
+	if hm := getHModel(P); hm != nil && hm.R != nil && hm.R.OIDCProcess != nil {
+		removeSessionCallers(c, "C10.R2", hm.R, hm)
+	}
 	// registration in main
 	main := P.Func(pkgCmd, "main")
 	if !c.Anchor("C10.R4", "cmd.main", main != nil) {
@@ -1623,4 +1668,47 @@ func globalSliceStrings(P *Program, v ssa.Value) []string {
 		}
 	}
 	return out
+}
+
+// removeSessionCallers: the handler removes a session in two places only — the logout branch and the
+// login-redirect helper (which issues a new id). A removal followed by a write under the same id (a "clean
+// slate" before storing refreshed tokens) re-creates the session with a new creation time: every refresh
+// would restart the absolute limit.
+func removeSessionCallers(c *Check, rule string, R *Roles, m *hModel) {
+	P := c.P
+	n := 0
+	for _, fn := range R.HandlerFuncs {
+		for _, ci := range callsTo(fn, idStoreIface+".RemoveSession") {
+			n++
+			ok := fn == R.Redirect || (fn.Parent() != nil && fn.Parent() == R.Redirect)
+			if !ok && R.LogoutMatch != nil {
+				// under the logout-path test
+				for _, lc := range callsToFn(fn, R.LogoutMatch) {
+					if v, k := FactsOf(fn).At(ci).CallBool(lc.(*ssa.Call), -1); k && v {
+						ok = true
+					}
+				}
+				// a logout helper: every caller reaches it under the logout-path test
+				if !ok && fn != R.OIDCProcess {
+					all, any := true, false
+					for _, cs := range callsToFn2(P, fn) {
+						any = true
+						under := false
+						for _, lc := range callsToFn(cs.Parent(), R.LogoutMatch) {
+							if v, k := FactsOf(cs.Parent()).At(cs).CallBool(lc.(*ssa.Call), -1); k && v {
+								under = true
+							}
+						}
+						if !under {
+							all = false
+						}
+					}
+					ok = any && all
+				}
+			}
+			c.Obl(ok, rule, "remove-session-site/"+fnKey(fn)+"/"+nthCallKey(ci), P.Pos(ci.Pos()), "RemoveSession is called for a logout or a session renewal",
+				"RemoveSession is called in "+fnKey(fn)+" outside the logout branch and the login-redirect helper: a write that follows under the same id re-creates the session with a new creation time (the absolute limit restarts)")
+		}
+	}
+	c.Obl(n >= 2, rule, "remove-session-sites", "-", fmt.Sprintf("%d RemoveSession call sites in the handler", n), "RemoveSession call sites of the handler not found (anchor lost)")
 }
